@@ -57,7 +57,7 @@ TEXT = {
 }
 
 NA = {
-    "C09": "Not applicable as built: the VCF escaping layer sits on the external percent_encoding crate and Cow<str>/String, typed INFO/FORMAT parsing on header IndexMaps; no solver obligation over the real code was brought under the time/memory budget, and deciding unrelated kernels would not speak to this property. See DESIGN.md §8.3, §9.",
+    "C09": "Not applicable as built: the VCF escaping layer sits on the external percent_encoding crate and Cow<str>/String, typed INFO/FORMAT parsing on header IndexMaps; no solver obligation over the real code was brought under the time/memory budget (measured again at the end: the INFO string writer half fits in 1.7 s for every 1-character string, but the reader half -- percent_decode_str(..).decode_utf8(), i.e. Cow + String::from_utf8 of a heap Vec -- exhausts 14 GB for 3 concrete-length ASCII bytes, so the inverse law cannot be decided), and deciding the writer half or unrelated kernels alone would not speak to this round-trip property. The harnesses are kept, tier=off (harness/vcf/writer_info_string.rs). See DESIGN.md §8.3, §9.",
 
     "C03": "Quantifier is over thread schedules of rayon tasks/crossbeam channels; Kani/CBMC do not model threads or channels and no solver-based engine here executes the real multithreaded code (a hand-written Promela/TLA+ model would be a different technique). See DESIGN.md §5 C03.",
     "C16": "Async BGZF/format I/O needs a tokio runtime, spawn_blocking and futures combinators; Kani cannot execute them and the quantifier is over poll schedules. See DESIGN.md §5 C16.",
